@@ -34,8 +34,8 @@ func init() {
 			ruleLineFilterBuilder(r)
 			ruleOffloadProvenance(r)
 			ruleGetFloatKinds(r)
-			ruleLabelRegexAnchoring(r)    // a label regexp and a line regexp with the same text stay two different matchers
-			ruleLPOffload(r)              // every written filter stage is evaluated: the engine builds its pipeline from the whole stage list
+			ruleLabelRegexAnchoring(r) // a label regexp and a line regexp with the same text stay two different matchers
+			ruleLPOffload(r)           // every written filter stage is evaluated: the engine builds its pipeline from the whole stage list
 		},
 	})
 }
